@@ -15,6 +15,7 @@ from concurrent.futures import ThreadPoolExecutor
 
 from hv import boot  # noqa: F401
 from hv.core import Result, task_failure, viol
+from hv.exckit import OWN_CLASSES, make_own
 from hv.ctxkit import A, Capture, MissingContext, MissingState
 from hv.vloop import Livelock
 from hv.world import Action, Chooser, World
@@ -119,7 +120,13 @@ SIGS: dict[str, tuple[str, list]] = {
     "kw": ("def f({s}**kw):", [((), {}), ((), {"x": 1, "y": 2})]),
     "a_k1": ("def f({s}a, *, k=1):", [((1,), {}), ((1,), {"k": 5})]),
     "full": ("def f({s}a, /, b, *args, k=1, **kw):", [((1, 2), {}), ((1, 2, 3, 4), {"k": 5, "z": 6}), ((1,), {"b": 2})]),
+    # keyword names that a wrapper is likely to use for its own parameters
+    "names": ("def f({s}a, *, instance=0, function=1, loop=2, executor=3, args=4, kwargs=5):", [((1,), {"instance": 7, "function": 8, "loop": 9, "executor": 10, "args": 11, "kwargs": 12})]),
+    "kwnames": ("def f({s}**kw):", [((), {"instance": 1, "function": 2, "owner": 3, "context": 4, "call": 5})]),
 }
+
+# own exception classes for the "raise_own" outcome: exckit + the RuntimeError family
+OWN18 = [*OWN_CLASSES, NotImplementedError, RecursionError]
 
 
 def programs(tier: str):
@@ -146,6 +153,15 @@ def programs(tier: str):
                     ctxs = ("none", "scope") if tier == "quick" else ("none", "scope", "scope+updated", "nested")
                     for cctx in ctxs:
                         yield {"family": "traced", "sig": sig, "form": fi, "input": inp, "outcome": outcome, "ctx": cctx}
+    # the function's own exception is of a class a wrapper might handle itself (RuntimeError
+    # family, LookupError family ...): handed back unchanged, the function ran exactly once
+    for c in range(len(OWN18)):
+        for kind in ("function", "method"):
+            for executor in ("default", "explicit"):
+                yield {"family": "asynchronous", "sig": "a", "form": 0, "kind": kind, "outcome": "raise_own", "errclass": c, "executor": executor, "ctx": "none"}
+        for inp in ("sync", "async"):
+            yield {"family": "wrap_async", "sig": "a", "form": 0, "input": inp, "outcome": "raise_own", "errclass": c}
+            yield {"family": "traced", "sig": "a", "form": 0, "input": inp, "outcome": "raise_own", "errclass": c, "ctx": "scope"}
     for kind in ("function", "method"):
         for executor in ("default", "explicit"):
             yield {"family": "reuse", "kind": kind, "executor": executor}
@@ -539,6 +555,8 @@ def execute(program, ch: Chooser) -> Result:  # noqa: C901, PLR0912, PLR0915
         tags[id(s)] = s.tag
     seen: dict = {"calls": 0}
     boom = Boom("own") if outcome != "raise_base" else BoomBase("own-base")
+    if outcome == "raise_own":
+        boom = make_own(OWN18[program["errclass"]], "own")
     leak_cms: list = []
 
     def body(received: dict):
@@ -638,10 +656,14 @@ def execute(program, ch: Chooser) -> Result:  # noqa: C901, PLR0912, PLR0915
                 if inspect.isawaitable(r) and not (fam == "traced" and program.get("input") == "sync"):
                     r = await r  # the wrapper's coroutine (a sync traced function returns directly)
                 got["out"] = ("value", r)
-            except (Boom, BoomBase) as exc:
-                got["out"] = ("raised", exc)
             except BaseException as exc:  # noqa: BLE001
-                got["out"] = ("other", f"{type(exc).__name__}: {exc}"[:200])
+                # (run_in_executor re-creates TimeoutError / InvalidStateError objects when it copies
+                #  the outcome from the thread's future: same class, same args - still the function's own)
+                recreated = fam == "asynchronous" and type(boom) in (TimeoutError, asyncio.InvalidStateError) and type(exc) is type(boom) and exc.args == boom.args
+                if exc is boom or isinstance(exc, (Boom, BoomBase)) or recreated:
+                    got["out"] = ("raised", boom if recreated else exc)
+                else:
+                    got["out"] = ("other", f"{type(exc).__name__}: {exc}"[:200])
             got["before"] = before[0]
             got["after"] = _state_token(tags)
 
@@ -693,7 +715,7 @@ def execute(program, ch: Chooser) -> Result:  # noqa: C901, PLR0912, PLR0915
                 viols.append(viol("transparent", f"{outcome}-result/{witness}", f"the same result object ({outcome})", f"{out[0]}: {type(out[1]).__name__}"))
             elif outcome == "value" and not (out[0] == "value" and out[1] is RESULT):
                 viols.append(viol("transparent", f"result/{witness}", "the same result object", out[0]))
-            elif outcome in ("raise", "raise_base") and not (out[0] == "raised" and out[1] is boom):
+            elif outcome in ("raise", "raise_base", "raise_own") and not (out[0] == "raised" and out[1] is boom):
                 viols.append(viol("transparent", f"exception/{witness}", "the same exception object", out[0]))
             if seen["calls"] != 1:
                 viols.append(viol("transparent", f"calls/{witness}", 1, seen["calls"]))
